@@ -43,6 +43,10 @@ CHECKS["C12"] = dict(engine="E3", level="fault_enumeration", technique="determin
    text="For each seeded history (5-25 VFS and File calls, composites, objects returned by FailFS followed) on FailFS over MemFS or OrefaFS: plan 0 (no failure function installed) must equal the same history on a twin base call by call and in the final tree; a recording plan checks that every call consults the failure function and lists the invocations; then EVERY plan (F,k) is executed: the call in which the fault fires must fail (with exactly the injected error when the call is that primitive), the base snapshot with modification times must be unchanged around a failed primitive call, and the rest of the history must equal the twin on which that call was skipped; composites must fail for the primitives of the statement's table; under ReadOnlyFunc the base snapshot never changes. Exhaustive in (F,k) per history, sampled over histories.",
    note="trusted: the twin base (same implementation); after a fault inside a composite the run is cut (earlier primitives of the composite had their effect); Glob ignores I/O errors by contract", ref="3/C12")
 
+CHECKS["C16"] = dict(engine="E3", level="fault_enumeration", technique="deterministic simulation with fault injection at every I/O step of a copy: FailFS single-fault plans on both sides + simulated-disk decorator, exhaustive per scenario",
+   text="Scenarios (size around the 32 KiB buffer boundary, permission bits, source and destination among MemFS, OrefaFS, BasePathFS, RoFS, OsFS on a tmpfs scratch directory, hasher or none, existing destination) for CopyFile, CopyFileHash and HashFile. A recording fault-free run lists the primitives invoked on each side; then EVERY single-fault plan (side, primitive F, k-th invocation) through FailFS is executed, plus simulated-disk faults (short reads, a write that stores n bytes then fails, short write without error, Close and Sync errors). Oracle: nil error implies destination bytes = source bytes, equal permission bits, digest = SHA-256 of the bytes; a fired fault on open/read/write/sync/stat/chmod/destination close implies a non-nil error; short reads must not change the result. A concurrent variant runs 2-3 copies at once under the seeded scheduler (shared buffer pool).",
+   note="trusted: read-back through the underlying file systems, crypto/sha256; a Close error of the source handle may be ignored", ref="3/C16")
+
 NA = {
  "C13": "Clean, Join, Split, Dir, Base, IsAbs, Rel, Abs, FromSlash, ToSlash, VolumeName, Match and PathIterator are pure functions of their string arguments and the OS-type constant: there is no schedule, clock, I/O, fault or shared state for a simulator to control; generating strings is input fuzzing, a different technique (DESIGN.md section 4).",
 }
